@@ -1,7 +1,7 @@
 """C08 - local tensor quadrature grids honour their exactness and point contracts.
 
 Exhaustive lattice: grid family x dimension (1,2) x every level vector of {0..L}^d x every dyadic sub-box (k<=2 per
-dimension; touching the left end, the right end, both, none) of two float-exact domains.  Oracle: announced point
+dimension; touching the left end, the right end, both, none) of two float-exact domains (plus, for the trapezoidal family, a domain far from the origin).  Oracle: announced point
 number, points inside the sub-box, weights sum to the volume, every tensor monomial up to the nominal degree
 integrated exactly through grid.integrate; trapezoid with boundary points off == trapezoid with them on minus the
 points on the global boundary, remaining weights unchanged.
@@ -52,7 +52,9 @@ def nominal_degree(name, n):
 
 
 def _mono_exact(k, s, e):
-    return (e ** (k + 1) - s ** (k + 1)) / (k + 1)
+    # exact rational arithmetic on the (float-exact) box ends: no cancellation on domains far from the origin
+    from fractions import Fraction
+    return float((Fraction(e) ** (k + 1) - Fraction(s) ** (k + 1)) / (k + 1))
 
 
 def sub_boxes_1d(a, b, kmax=2):
@@ -188,6 +190,16 @@ def cases(tier):
                     for box in itertools.product(*boxes1):
                         out.append({"config": {"family": name, "d": d, "level": list(lv), "a": a, "b": b,
                                                "start": [x[0] for x in box], "end": [x[1] for x in box]}})
+    # a domain far from the origin (the distance of an inner sub-box from the global boundary is tiny relative to the coordinates):
+    # the families with a boundary-off contract of the statement
+    far = {1: ([1048576.0], [1048577.0]), 2: ([1048576.0, 0.0], [1048577.0, 1.0])}
+    for d in (1, 2):
+        a, b = far[d]
+        boxes1 = [sub_boxes_1d(a[k], b[k], 2) for k in range(d)]
+        for lv in itertools.product(range(0, 3 if d == 2 else 4), repeat=d):
+            for box in itertools.product(*boxes1):
+                out.append({"config": {"family": "trapezoidal", "d": d, "level": list(lv), "a": a, "b": b,
+                                       "start": [x[0] for x in box], "end": [x[1] for x in box]}})
     # object reuse: all ordered pairs / triples of requests from a small menu on ONE grid object
     menu1 = [([1], [0.0], [1.0]), ([2], [0.0], [1.0]), ([2], [0.25], [0.5]), ([1], [0.5], [1.0]), ([3], [0.0], [0.5]), ([2], [0.5], [0.75]), ([0], [0.0], [0.5])]
     menu1b = [([lv[0]], [-1.0 + 4 * s[0]], [-1.0 + 4 * e[0]]) for lv, s, e in menu1]
